@@ -360,7 +360,7 @@ class Connection:
         v = self.version
         legacy = TLS12 if v == TLS13 else v
         body = struct.pack("!H", legacy) + self.server_random + bytes([len(self.session_id)]) + self.session_id
-        body += struct.pack("!H", self.suite) + b"\x00"
+        body += struct.pack("!H", s.get("wire_suite") or self.suite) + b"\x00"
         if v != SSL30:
             exts = b"".join(server_hello_exts(s["exts"], v, s["etm"], self.rng))
             if exts or v == TLS13 or s["exts"] == "empty_block":
